@@ -513,6 +513,8 @@ def drive(path, prog, env_rng, max_results, memo_uids=frozenset(), style="free",
                 rec["events"].append("EWake %d" % ent[1])
                 rec["hist"].append(ent[0])
                 rec["handed"].append(ent[1])
+                # what the adapter tells its callers while the control loop processes this completion
+                rec.setdefault("replaying_after", []).append(bool(ad.is_replaying()))
                 live.remove(ent)
                 running[:] = [nt for nt in running if nt.task is not comp]
 
@@ -625,6 +627,14 @@ def monitor_pair(prog, J, prev_hist, start_rows, start_ops, rec, wf, prev_ok):
                 out.append(("C27/timeout-not-journaled",
                             "a wait that timed out is not journaled, so the recovered loop diverges: " + what))
     if in_domain:
+        # while the control loop processes the m-th completion it was handed, is_replaying() says whether recorded entries
+        # are still ahead: True for m < n, False from the n-th on (what that completion makes the loop publish is new
+        # only if the interrupted process had not got that far - the server adapter de-duplicates on this flag)
+        for m, flag in enumerate(rec.get("replaying_after", []), 1):
+            if flag != (m < n):
+                out.append((None, "after completion %d of %d recorded ones was handed to the control loop, is_replaying() is %s"
+                                  % (m, n, flag)))
+                break
         # purge exactly at the replay->fresh transition
         nkeys = sum(1 for x in h2 if x >= 0)
         purged_expected = nkeys >= n
